@@ -200,6 +200,14 @@ func (lex *Lexer) Reset() {
 	lex.linenum = 1
 	lex.preBuiltinRune = 0
 	lex.buffer.Reset()
+	// forget everything about earlier texts, so that
+	// a text is read the same way whatever came before.
+	lex.next = nil
+	lex.prevrune = 0
+	lex.prevToken = Token{}
+	lex.prevPrevToken = Token{}
+	lex.priori = 0
+	lex.priorRune = [20]rune{}
 }
 
 func (lex *Lexer) EmptyToken() Token {
